@@ -154,11 +154,24 @@ fn ordinal_with(n: u64, st: &Style, variant: &'static str) -> SpelledOrd {
 
 pub fn ordinals(n: u64) -> Vec<SpelledOrd> {
     let d = Style::default();
-    vec![
+    let mut v = vec![
         ordinal_with(n, &d, "primary"),
         ordinal_with(n, &Style { hyphen: false, ..d.clone() }, "space-for-hyphen"),
         ordinal_with(n, &Style { and: true, ..d.clone() }, "with-and"),
-    ]
+    ];
+    // plural (`two thirds`, `three twenty-fifths`): the marker gets an s.  Ranks ending in `second` are not claimed in the
+    // plural: `seconds` is the time unit, which the library leaves alone on purpose (its tests pin `Twenty seconds`).
+    let sg = v[0].clone();
+    let pl_marker = match sg.marker {
+        "st" => Some("sts"),
+        "rd" => Some("rds"),
+        "th" => Some("ths"),
+        _ => None,
+    };
+    if let Some(m) = pl_marker {
+        v.push(SpelledOrd { text: format!("{}s", sg.text), marker: m, inflection: "pl", variant: "primary" });
+    }
+    v
 }
 
 pub fn canon(w: &str) -> String {
